@@ -96,6 +96,7 @@ theorem C05_arm (ext : Ext F) (s : Scalar) (a : Action) (v : GoVal F)
   | timeOfFloat => simp [armSoundOut] at hs
   | timeOfInt => simp [armSoundOut] at hs
   | timeParseKeep => simp [armSoundOut] at hs
+  | convStrict t => simp [armSoundOut] at hs
 
 
 theorem armFor_mem (tbl : Table) (k : Kind) :
